@@ -1286,6 +1286,17 @@ impl Family for AbtFamily {
             enumerate_traces(&obj, Call::Update(b, vouch_bits(vb)), 8, false, &mut lines);
             enumerate_traces(&obj, Call::TryUpdate(b, vouch_bits(vb)), 8, false, &mut lines);
         }
+        // long retry chains: a reader that loses N races in a row must still do nothing but loads
+        // (a bounded-retry "fallback" that takes the lock or skips validation shows up here)
+        for n in [63usize, 64, 65, 130] {
+            let mut script: Vec<String> = vec!["0".into()];
+            for k in 1..=n {
+                script.extend(["v5".to_string(), "5".to_string(), k.to_string()]);
+            }
+            script.extend(["v5".to_string(), "5".to_string(), n.to_string()]);
+            lines.push(format!("trace snapshot {}", script.join(",")));
+            lines.push(format!("trace unlocked {}", script.join(",")));
+        }
         for chunk in lines.chunks(40) {
             cases.push(chunk.to_vec());
         }
